@@ -190,6 +190,16 @@ From SV Require Import Port.OracleC08 Port.OracleC17 Port.LemmasC17 Port.OracleC
     identity and the instance's domain, sent on the channel of its type, within
     the packet buffer, in the right role, and - for an Announce - reflecting the
     data sets *)
+(** a counted message carries the current value of its sequence counter *)
+Definition seq_fact (p : port) (m : message) : Prop :=
+  match body_type (m_body m) with
+  | MTSync => h_seq (m_header m) = p_seq_sync p
+  | MTDelayReq => h_seq (m_header m) = p_seq_delay p
+  | MTPDelayReq => h_seq (m_header m) = p_seq_pdelay p
+  | MTAnnounce => h_seq (m_header m) = p_seq_announce p
+  | _ => True
+  end.
+
 Definition frame_role (p : port) (d : inst_ds) (x : bool * bytes) : Prop :=
   exists m, decode (snd x) = ROk m /\
     (master_role_type (body_type (m_body m)) = true -> is_master (p_state p) = true) /\
@@ -197,7 +207,7 @@ Definition frame_role (p : port) (d : inst_ds) (x : bool * bytes) : Prop :=
     snd x = encode_raw m /\ h_source (m_header m) = p_identity p /\
     h_domain (m_header m) = dd_domain (ds_default d) /\ h_sdo_id (m_header m) = dd_sdo_id (ds_default d) /\
     wire_size m <= MAX_DATA_LEN /\ fst x = is_event_frame_type (body_type (m_body m)) /\
-    announce_reflects d m = true.
+    announce_reflects d m = true /\ seq_fact p m.
 Definition frames_role (p : port) (d : inst_ds) (o : list obs) : Prop := Forall (frame_role p d) (sent_frames o).
 
 Lemma frames_role_none p d o : no_send o = true -> frames_role p d o.
@@ -249,13 +259,13 @@ Lemma role_of_msg p d (m : message) (ev : bool) :
   h_source (m_header m) = p_identity p ->
   h_domain (m_header m) = dd_domain (ds_default d) -> h_sdo_id (m_header m) = dd_sdo_id (ds_default d) ->
   wire_size m <= MAX_DATA_LEN -> ev = is_event_frame_type (body_type (m_body m)) ->
-  announce_reflects d m = true ->
+  announce_reflects d m = true -> seq_fact p m ->
   frame_role p d (ev, encode_raw m).
-Proof. intros Hw H1 H2 H3 H4 H5 H6 H7 H8. exists m. split; [apply encode_decode; exact Hw|]. repeat split; assumption. Qed.
+Proof. intros Hw H1 H2 H3 H4 H5 H6 H7 H8 H9. exists m. split; [apply encode_decode; exact Hw|]. repeat split; assumption. Qed.
 
 (** the side facts are all by computation for the fixed-size messages *)
 Ltac side_facts :=
-  try reflexivity;
+  try reflexivity; try exact I;
   try (match goal with |- wire_size _ <= _ => cbv; discriminate end);
   try (match goal with
        | |- body_type _ = MTDelayReq -> _ => let Hx := fresh in intros Hx; cbn in Hx; discriminate Hx
